@@ -1,11 +1,14 @@
 // C11: the real TypeChecker::typesAreCompatible on every ordered pair of the types of the declarations v0, v1, ... of a unit.
 // line: "<hex text>"
-// answer: "<n> | <type> ; <type> ; ... | <bits>"  bits: for i, for j, for (voidAny, ignoreQ) in (0,0) (0,1) (1,0) (1,1): 0/1
+// answer: "<n> | <type> ; <type> ; ... | <bits> | <assign bits>"  assign bits: for i, for j: isTypeAssignableFromOtherType(ti, tj, e) for e not a null constant, for e = 0
+//  bits: for i, for j, for (voidAny, ignoreQ) in (0,0) (0,1) (1,0) (1,1): 0/1
 //   type (prefix form, what the Lean model reads; a typedef name stands for its resolved synonym):
 //     B<k> basic | V void | E error | T<kind>:<i> tag (i: index of first occurrence of the tag identifier) | P <t> pointer | A <t> array
 //     | F<form>:<n> <ret> <p1> ... <pn> function (form 0 unspecified 1 specified-as-empty 2 non-empty: FunctionType::ParameterListForm) | Q<bits> <t> qualified (c1 v2 r4 a8)
 #include "sema_common.h"
 #include "C/sema/TypeChecker.h"
+#include "C/syntax/SyntaxNodes.h"
+#include "C/syntax/SyntaxVisitor.h"
 #include <map>
 
 namespace {
@@ -52,7 +55,7 @@ static int compatMain(const std::vector<std::string>&, std::istream& in, std::os
     while (std::getline(in, line)) {
         auto w = splitWords(line);
         if (w.size() != 1) { out << "bad-case\n"; continue; }
-        auto a = analyse(unhex(w[0]), opts, P_Resolve);
+        auto a = analyse(unhex(w[0]) + "\nint zz_ = 0;\n", opts, P_Resolve);
         if (!a.model) { out << "no-model\n"; continue; }
         std::map<int, const Type*> byIdx;
         for (auto d : allDeclarations(a.model)) {
@@ -72,6 +75,22 @@ static int compatMain(const std::vector<std::string>&, std::istream& in, std::os
             for (auto t2 : tys)
                 for (int f = 0; f < 4; ++f)
                     out << (tc.typesAreCompatible(t1, t2, (f & 2) != 0, (f & 1) != 0) ? '1' : '0');
+        // isTypeAssignableFromOtherType(t1, t2, right operand) for every ordered pair, the right operand once an expression that is no
+        // null pointer constant (the unit's root node serves) and once the constant `0` (of the declaration `int zz_ = 0;` the harness appends)
+        struct ZeroFinder : SyntaxVisitor {
+            const SyntaxNode* zero = nullptr;
+            ZeroFinder(const SyntaxTree* t) : SyntaxVisitor(t) {}
+            Action visitConstantExpression(const ConstantExpressionSyntax* n) override { if (!zero && n->constantToken().valueText() == "0") zero = n; return Action::Skip; }
+        } zf(a.tree);
+        zf.visit(a.tree->rootNode());
+        out << " | ";
+        if (zf.zero) {
+            for (auto t1 : tys)
+                for (auto t2 : tys) {
+                    out << (tc.isTypeAssignableFromOtherType(t1, t2, a.tree->rootNode()) ? '1' : '0');
+                    out << (tc.isTypeAssignableFromOtherType(t1, t2, zf.zero) ? '1' : '0');
+                }
+        } else out << "nozero";
         out << "\n";
     }
     return 0;
